@@ -228,8 +228,27 @@ async def _async_all(jobs: list) -> list:
     return await asyncio.gather(*[_async_env(*j) for j in jobs])
 
 
-def _run_envs(envs: list, name: str) -> list[list]:
-    """For each (env, include-template) the outcome of each access path (order: ACCESS)."""
+def _touches_disk(name: str) -> bool:
+    """Does the unguarded join of the name (with or without a default extension)
+    to a search directory hit anything on disk?  Conservative: True on doubt."""
+    try:
+        p = Path(name)
+        cands = [p]
+        if p.name:
+            cands += [p.with_name(p.name + e) for e in (".liquid", ".b")]
+        for root in ("a", "b"):
+            for c in cands:
+                if os.path.lexists(os.path.join(root, str(c))):      # cwd = T
+                    return True
+        return False
+    except Exception:  # noqa: BLE001
+        return True
+
+
+def _run_envs(envs: list, name: str, full: bool = True) -> list[list]:
+    """For each (env, include-template) the outcome of each access path (order: ACCESS).
+    full=False: the four async access paths are run only if some sync path did
+    not answer TemplateNotFoundError or the name touches something on disk."""
     def py(env):
         t = env.get_template(name)
         return ("F", t.render(), str(t.path))
@@ -242,14 +261,17 @@ def _run_envs(envs: list, name: str) -> list[list]:
             row.append(None if t is None else _out(lambda t=t: ("F", t.render())))
         sync.append(row)
         jobs.append((env, inc, name, lits))
-    asy = _W["loop"].run_until_complete(_async_all(jobs))
+    if full or any(o is not None and o[0] != "N" for row in sync for o in row) or _touches_disk(name):
+        asy = _W["loop"].run_until_complete(_async_all(jobs))
+    else:
+        asy = [[None] * 4 for _ in jobs]
     # interleave: py, py_async, include, include_async, render, render_async, extends, extends_async
     return [[s[0], a[0], s[1], a[1], s[2], a[2], s[3], a[3]] for s, a in zip(sync, asy)]
 
 
-def _run_names(names: list[str]) -> list[list[list]]:
-    """For each name, for each config, the outcome of each access path."""
-    return [_run_envs(_W["envs"], name) for name in names]
+def _run_names(names: list[tuple[str, bool]]) -> list[list[list]]:
+    """For each (name, full), for each config, the outcome of each access path."""
+    return [_run_envs(_W["envs"], name, full) for name, full in names]
 
 
 def _run_extra(job: tuple) -> list:
@@ -308,15 +330,27 @@ def c_loader(cfg: tuple) -> str:
 def c_defs(tree: Tree, paths: list[str]) -> str:
     tsegs = [x for x in str(tree.T).split("/") if x]
     osegs = tsegs[:-1]
-    files = []
+    groups: dict[str, list[str]] = {"A": [], "B": [], "T": [], "O": []}
     for p, cid in sorted(tree.content.items(), key=lambda kv: kv[1]):
         rel = [x for x in p.split("/") if x][len(osegs):]
-        files.append(f"(mkpath Rel {C.clist(map(C.cstr, rel), 'str')}, {cid})")
+        if rel[0] == PKG and rel[1] in ("a", "b") and len(rel) > 2:
+            g, key = rel[1].upper(), rel[2:]
+        elif rel[0] == PKG:
+            g, key = "T", rel[1:]
+        else:
+            g, key = "O", rel
+        groups[g].append(f"({C.clist(map(C.cstr, key), 'str')}, {cid})")
     return "\n".join([
         f"Definition OO : list str := {C.clist(map(C.cstr, osegs), 'str')}.",
-        f"Definition TT : list str := OO ++ [{C.cstr(PKG)}].",
-        # regular files of the scratch tree, keyed by their path below the scratch directory OO
-        f"Definition FILES : list (ppath * N) := {C.clist(files)}.",
+        f"Definition TT : list str := Eval vm_compute in OO ++ [{C.cstr(PKG)}].",
+        # the regular files of the scratch tree: below T/a, below T/b, elsewhere below T,
+        # elsewhere below the scratch directory OO (keys: components below that directory)
+        f"Definition FILES_A : list (list str * N) := {C.clist(groups['A'], '(list str * N)')}.",
+        f"Definition FILES_B : list (list str * N) := {C.clist(groups['B'], '(list str * N)')}.",
+        f"Definition FILES_T : list (list str * N) := {C.clist(groups['T'], '(list str * N)')}.",
+        f"Definition FILES_O : list (list str * N) := {C.clist(groups['O'], '(list str * N)')}.",
+        "Fixpoint lookup (l : list (list str * N)) (k : list str) : option N :=",
+        "  match l with [] => None | (k', c) :: l' => if list_eqb str_eqb k k' then Some c else lookup l' k end.",
         "Fixpoint strip (pre l : list str) : option (list str) :=",
         "  match pre, l with",
         "  | [], _ => Some l",
@@ -325,10 +359,20 @@ def c_defs(tree: Tree, paths: list[str]) -> str:
         "  end.",
         # the OS view of a lexical path: '//' is '/', a relative path is below cwd = T;
         # nothing but the scratch tree is listed
+        "Definition below_T (rel : list str) : option N :=",
+        "  match rel with",
+        f"  | x :: rest => if str_eqb x {C.cstr('a')} then match lookup FILES_A rest with Some c => Some c | None => lookup FILES_T rel end",
+        f"                 else if str_eqb x {C.cstr('b')} then match lookup FILES_B rest with Some c => Some c | None => lookup FILES_T rel end",
+        "                 else lookup FILES_T rel",
+        "  | [] => None",
+        "  end.",
         "Definition FS : filesys := fun p =>",
-        "  match strip OO (match p_anchor p with Rel => TT ++ p_segs p | _ => p_segs p end) with",
-        "  | Some rel => fs_of_list FILES (mkpath Rel rel)",
-        "  | None => None",
+        "  match p_anchor p with",
+        "  | Rel => below_T (p_segs p)",
+        "  | _ => match strip TT (p_segs p) with",
+        "         | Some rel => below_T rel",
+        "         | None => match strip OO (p_segs p) with Some rel => lookup FILES_O rel | None => None end",
+        "         end",
         "  end.",
         f"Definition PATHS : list ppath := {C.clist(map(c_path, paths), 'ppath')}.",
         f"Definition LOADERS : list loader := Eval vm_compute in {C.clist(map(c_loader, CONFIGS), 'loader')}.",
@@ -364,9 +408,7 @@ class Enc:
             return "n_"
         if o[0] == "X":
             return f"(x_ {PYKIND.get(o[1], 'OtherPyError')})"
-        ps = o[2]
-        if not ps.startswith("/"):
-            pass                                      # relative search path: keep as printed
+        ps = o[2]                                     # relative for a relative search path
         if ps not in self.ix:
             self.ix[ps] = len(self.paths)
             self.paths.append(ps)
@@ -562,7 +604,10 @@ def _main(chk: C.Check, tree: Tree, thorough: bool) -> None:
 
     ctx = multiprocessing.get_context("fork")
     step = 64
-    chunks = [names[i:i + step] for i in range(0, len(names), step)]
+    # every access path for every seeded name and every exhaustive name shorter
+    # than the bound; at the bound itself the async paths only where it can matter
+    flagged = [(n, len(n) < maxlen) for n in ex] + [(n, True) for n in sd]
+    chunks = [flagged[i:i + step] for i in range(0, len(flagged), step)]
     with ctx.Pool(C.JOBS, initializer=_worker_init, initargs=(str(tree.outer),)) as pool:
         results = [r for part in pool.map(_run_names, chunks) for r in part]
         ext_results = pool.map(_run_extra, ext_jobs, chunksize=8)
@@ -570,7 +615,8 @@ def _main(chk: C.Check, tree: Tree, thorough: bool) -> None:
     orc = Oracle(tree, chk)
     enc = Enc(tree)
     items: list[dict[str, Any]] = []
-    dist = {"found": 0, "not_found": 0, "other_exception": 0, "loads": 0, "tag_paths_skipped": 0}
+    dist = {"found": 0, "not_found": 0, "other_exception": 0, "loads": 0, "tag_paths_skipped": 0,
+            "async_paths_skipped": 0}
     nontrivial: set[str] = set()
     n_found = n_escape_target = n_dir = 0
     extra_cases = 0
@@ -585,7 +631,8 @@ def _main(chk: C.Check, tree: Tree, thorough: bool) -> None:
         for cfg, outs in zip(CONFIGS, per_cfg):
             for acc, o in zip(ACCESS, outs):
                 if o is None:
-                    dist["tag_paths_skipped"] += 1
+                    dist["async_paths_skipped" if acc.endswith("_async") and outs[1] is None
+                         else "tag_paths_skipped"] += 1
                     continue
                 dist["loads"] += 1
                 dist[{"F": "found", "N": "not_found", "X": "other_exception"}[o[0]]] += 1
@@ -595,7 +642,7 @@ def _main(chk: C.Check, tree: Tree, thorough: bool) -> None:
             py = outs[0]
             exps.append(enc.expect(py))
             # every other access path must give the model's answer too
-            if py[0] == "F" and len(outs[1]) == 3 and outs[1][2] != py[2]:
+            if py[0] == "F" and outs[1] is not None and len(outs[1]) == 3 and outs[1][2] != py[2]:
                 extras.append((cfg, "py_async", outs[1], enc.expect(outs[1])))
             for acc, o in zip(ACCESS[1:], outs[1:]):
                 if o is not None and obs(o) != obs(py):
@@ -664,7 +711,7 @@ def _main(chk: C.Check, tree: Tree, thorough: bool) -> None:
                                          "py": list(py), "note": "access paths disagree"}})
 
     correspond(chk, "c13", IMPORTS, c_defs(tree, enc.paths), items,
-               what="PathResolve.get_source", shard=2500 if thorough else 900)
+               what="PathResolve.get_source", shard=400 if thorough else 350)
 
     samples = []
     for want in ("b/a", "../ab", "", str(tree.T / "secret")):
@@ -681,7 +728,9 @@ def _main(chk: C.Check, tree: Tree, thorough: bool) -> None:
                  f"segment pool) x {len(CONFIGS)} loader configurations (FileSystemLoader, CachingFileSystemLoader, PackageLoader, "
                  "ChoiceLoader, nested ChoiceLoader, CachingChoiceLoader; one / two / reversed / cwd-relative search paths; ext None, "
                  "'', '.liquid', '.b') x 8 access paths (get_template, get_template_async, include / render / extends in a template, "
-                 f"each sync and async); plus {len(ext_jobs)} (default extension x name) cases incl. invalid extensions. "
+                 f"each sync and async; for exhaustive names of exactly length {maxlen} the four async paths are run only when a sync "
+                 "path did not answer TemplateNotFoundError or the unguarded join of the name, with or without an extension, "
+                 f"touches something on disk); plus {len(ext_jobs)} (default extension x name) cases incl. invalid extensions. "
                  "non-trivial = names that some configuration served from a search directory, escaping names whose unguarded join "
                  "hits an existing file outside the search directory, and names that resolve to a directory"),
         "samples": samples,
